@@ -2,7 +2,7 @@
 import ast
 import codecs
 
-from .framework import rule, Ob, fmt_trace, sql_events, call_events, values_in
+from .framework import rule, Ob, fmt_trace, sql_events, call_events, values_in, deep_values
 from .model import AnalysisError, walk_shallow, dotted
 from .values import V
 from .rules_lock import core_entries, _is_row_write, _stmt_sig
@@ -619,8 +619,12 @@ def k6(ctx):
                         ok, why = False, 'key = ? and raw = ? are not both top-level conjuncts of the WHERE clause'
                 pev = tr[kv.a[0]]
                 a0 = pev.d['args'][0] if pev.d['args'] else None
-                if ok and not (a0 is not None and a0.k == 'param' and a0.a[0] == 'key'):
+                if ok and 'key' in f.params and not (a0 is not None and a0.k == 'param' and a0.a[0] == 'key'):
                     ok, why = False, 'Disk.put is not applied to the method\'s `key` argument'
+                if ok and 'key' not in f.params and not (a0 is not None and any(
+                        x.k == 'param' for x in deep_values(a0, tr))):
+                    # a method with several keys (rename, *_many): the key must still come from the caller
+                    ok, why = False, 'Disk.put is not applied to a value supplied by the caller'
                 if not ok:
                     info['ok'] = False
                     info['why'] = why
